@@ -59,7 +59,16 @@ fn create_symlink(sri: Integrity, cache: &PathBuf, target: &PathBuf) -> Result<I
         let occupant_is_link = std::fs::symlink_metadata(&cpath)
             .map(|meta| meta.file_type().is_symlink())
             .unwrap_or(false);
-        if occupant_is_link {
+        // The occupant may already lead to the very file `target` names -- the
+        // same file linked again, or a `target` that is (or resolves through)
+        // the cache symlink itself. There is nothing to repair then, and
+        // pointing the address at `target` could point it at itself.
+        let already_leads_to_target = occupant_is_link
+            && matches!(
+                (std::fs::canonicalize(&cpath), std::fs::canonicalize(target)),
+                (Ok(occupant), Ok(wanted)) if occupant == wanted
+            );
+        if occupant_is_link && !already_leads_to_target {
             // An earlier link lives at this address. The file it points to may
             // have been changed or removed since, whereas `target` has just
             // been read and hashed: point the address at it, the way a writer
@@ -71,7 +80,7 @@ fn create_symlink(sri: Integrity, cache: &PathBuf, target: &PathBuf) -> Result<I
                     cpath.display()
                 )
             })?;
-        } else if !cpath.exists() {
+        } else if !already_leads_to_target && !cpath.exists() {
             // If symlinking fails because there's *already* a file at the
             // desired destination, that is ok -- all the cache should care
             // about is that there is **some** valid file associated with the
